@@ -23,8 +23,9 @@ prop("C18",
                   "(anti)symmetry 2e-5 = twice the eigenvector tolerance (a taper within 1e-5 of a symmetric reference is symmetric to 2e-5; observed 6e-8 typically, 1.2e-6 at N=3460, NW=6.57, k=13 in a thorough run); kernel residual |A v - lambda v| 1e-5 (observed 4e-8)",
                   "default k is round(2NW): it is only exercised where round(2NW) <= 2NW (the statement requires k <= 2NW); "
                   "otherwise the case falls back to the explicit k = floor(2NW)",
-                  "'starting with a positive lobe' is read as: the first entry whose magnitude exceeds 1e-6 of the "
-                  "taper's maximum is positive (for NW=8 and N>2000 the very first samples are ~1e-10, below the ~5e-9 absolute accuracy of the routine, so their own sign is not asserted)",
+                  "'starting with a positive lobe' is read as: the first entry whose magnitude exceeds 1e-2 of the "
+                  "taper's maximum is positive (for NW>=7.5 and N>2000 the first samples are ~1e-10 while the routine's error "
+                  "reaches 1.7e-6 absolute = 5e-5 of the maximum (N=3350, NW=7.5, taper 1), so their own sign is not asserted)",
                   "a dense-kernel eigh is NOT used as eigenvector reference (leading eigenvalues cluster at 1); dense "
                   "kernel only for Rayleigh quotients, residuals (N<=512) and eigenvalues (N<=256)",
                   "sizes above N=4096 and NW above 8 are not generated"],
@@ -50,7 +51,7 @@ def _tri_tapers(N, NW, k):
 
 def _first_lobe_sign(col):
     a = np.abs(col)
-    j = int(np.argmax(a > 1e-6 * a.max()))
+    j = int(np.argmax(a > 1e-2 * a.max()))      # clearly inside the first lobe, far above the accuracy of the routine
     return 1.0 if col[j] > 0 else -1.0
 
 
@@ -301,3 +302,35 @@ def c18_sweep(ctx, case):
     _eigvec(ctx, *args)
     _symmetry(ctx, *args)
     _sign(ctx, *args)
+
+
+# --------------------------------------------------------------------------
+# the result of one call is not affected by what the caller did with the previous result
+# --------------------------------------------------------------------------
+@sub("C18.reuse", strategy=dpss_case(), quick=300, thorough=6000,
+     doc="dpss called twice with the same arguments, the caller having modified the first result in place: the second "
+         "result is array_equal to a copy of the first (no state shared with the caller or kept between calls)")
+def c18_reuse(ctx, case):
+    N, NW, k = case["N"], case["NW"], case["k"]
+    v1, e1 = spectrum.dpss(N, NW, k)
+    v1 = np.asarray(v1)
+    e1 = np.asarray(e1)
+    keep_v, keep_e = v1.copy(), e1.copy()
+    ctx.cls("N<=128" if N <= 128 else "N>128")
+    ctx.nontrivial(v1.shape[1] >= 2 if v1.ndim == 2 else False)
+    v1 *= 3.0            # what a caller may well do: rescale the tapers / normalise the eigenvalues in place
+    e1 /= 2.0
+    v2, e2 = spectrum.dpss(N, NW, k)
+    ctx.check(np.array_equal(np.asarray(v2), keep_v) and np.array_equal(np.asarray(e2), keep_e),
+              "dpss(%d, %r, %r) called again after the caller modified the first result in place returns different values "
+              "(max|dv| = %.3g, max|de| = %.3g)" % (N, NW, k, float(np.max(np.abs(np.asarray(v2) - keep_v))),
+                                                   float(np.max(np.abs(np.asarray(e2) - keep_e)))), sig={"clause": "reuse"})
+    # and through pmtm, which hands the eigenvalues back to its caller
+    x = np.cos(0.3 * np.arange(N))
+    Sk, w, ev = spectrum.pmtm(x, NW=NW, k=k, NFFT=N, method="unity")
+    ev = np.asarray(ev)
+    ev *= 0.0
+    v3, e3 = spectrum.dpss(N, NW, k)
+    ctx.check(np.array_equal(np.asarray(e3), keep_e) and np.array_equal(np.asarray(v3), keep_v),
+              "dpss(%d, %r, %r) returns different values after the eigenvalues returned by pmtm were modified in place" % (N, NW, k),
+              sig={"clause": "reuse"})
